@@ -45,3 +45,15 @@ Theorem C03_unique :
     forall U1 U2, least_action H U1 -> least_action H U2 -> U1 == U2.
 Proof. intros. eapply least_action_unique; eassumption. Qed.
 Print Assumptions C03_unique.
+
+(** Two-block optimisation (two_block_optimized = True): same conclusions under [wiring_tb]. *)
+
+Theorem C03_gauge_two_block :
+  forall (T : Type) (r0 r1 : T) (add mul sub : T -> T -> T) (opp : T -> T) (req : T -> T -> Prop)
+         (Ro : @Ring_ops T r0 r1 add mul sub opp req) (Rg : @Ring T r0 r1 add mul sub opp req Ro)
+         (BA : BlockAlg T) (rflag : string -> T -> T) (fenv : string -> list T -> T) (sol : string -> T),
+    solution (gflag_of true) rflag fenv sol main_alg ->
+    wiring_tb rflag fenv (sol "H") ->
+    Sel (half ((sol "U" - 1) - adj (sol "U" - 1))) == 0.
+Proof. intros. eapply gauge_tb; eassumption. Qed.
+Print Assumptions C03_gauge_two_block.
